@@ -13,7 +13,9 @@ import hashlib
 import importlib
 import json
 import multiprocessing
+import contextlib
 import os
+import signal
 import sys
 import time
 import traceback
@@ -42,6 +44,26 @@ def setup_path():
 
 class HarnessError(Exception):
     """A problem in the verification machinery itself (exit 2, never a violation)."""
+
+
+class CallTimeout(BaseException):
+    """Raised by wall_guard inside a library call that runs implausibly long (a *suspected* hang; the verdict is
+    then reached by counting traced steps, never by the clock)."""
+
+
+@contextlib.contextmanager
+def wall_guard(seconds):
+    """Interrupt the main thread after `seconds` of wall time (SIGALRM; shards are separate processes and run their
+    cases in the main thread).  Not re-entrant."""
+    def handler(signum, frame):
+        raise CallTimeout()
+    old = signal.signal(signal.SIGALRM, handler)
+    signal.setitimer(signal.ITIMER_REAL, seconds)
+    try:
+        yield
+    finally:
+        signal.setitimer(signal.ITIMER_REAL, 0)
+        signal.signal(signal.SIGALRM, old)
 
 
 class BudgetExhausted(Exception):
@@ -183,8 +205,23 @@ def run_shards(mod_name, ctx_base, nshards):
     if nshards == 1 or os.environ.get('VERIF_INPROC'):
         return [_shard_entry(c) for c in ctxs]
     mp = multiprocessing.get_context('spawn')
-    with mp.Pool(min(nshards, ncpu())) as pool:
-        return pool.map(_shard_entry, ctxs, chunksize=1)
+    # budgets only ever end exploration early, so shards finish shortly after budget_s; the generous limit here only
+    # keeps a library call that never returns from hanging the check forever (exit 2, never a violation by itself)
+    limit = float(ctx_base.get('budget_s', 60)) * 4 + 900
+    pool = mp.Pool(min(nshards, ncpu()))
+    try:
+        res = pool.map_async(_shard_entry, ctxs, chunksize=1)
+        try:
+            out = res.get(timeout=limit)
+        except multiprocessing.TimeoutError:
+            pool.terminate()
+            raise HarnessError(f'shards did not finish within {limit:.0f} s (budget {ctx_base.get("budget_s")} s): '
+                               'a call into the library may not be returning')
+        pool.close()
+        return out
+    finally:
+        pool.terminate()
+        pool.join()
 
 
 def merge(results):
